@@ -117,6 +117,8 @@ type vFunc struct {
 	optName  string
 	optGroup string
 	optAs    int
+	// the nested parameter object is the last field of the outer one instead of the first
+	nestedLast bool
 
 	// Go-level layout
 	typ      reflect.Type
@@ -212,12 +214,21 @@ func (f *vFunc) layout() {
 				f.pPath[i] = []int{1, len(inner)}
 				inner = append(inner, reflect.StructField{Name: "N" + strconv.Itoa(i), Type: p.goType(), Tag: vTag(p.name, p.group, p.optional, p.soft, false)})
 			}
-			outer = append(outer, reflect.StructField{Name: "Nested", Type: reflect.StructOf(inner)})
+			if !f.nestedLast {
+				outer = append(outer, reflect.StructField{Name: "Nested", Type: reflect.StructOf(inner)})
+			}
 		}
 		for _, i := range outerIdx {
 			p := f.params[i]
 			f.pPath[i] = []int{len(outer)}
 			outer = append(outer, reflect.StructField{Name: "F" + strconv.Itoa(i), Type: p.goType(), Tag: vTag(p.name, p.group, p.optional, p.soft, false)})
+		}
+		if len(innerIdx) > 0 && f.nestedLast {
+			// the nested object is declared after the plain fields of the outer object
+			for _, i := range innerIdx {
+				f.pPath[i][0] = len(outer)
+			}
+			outer = append(outer, reflect.StructField{Name: "Nested", Type: reflect.StructOf(inner)})
 		}
 		for _, i := range outerIdx {
 			f.pArg[i] = len(ins)
